@@ -6,13 +6,16 @@ THEOREMS = ["Props.C03." + t for t in [
     "grammar_wf", "peg_total", "parse_total", "grammar_captures", "tree_conforms", "tree_in_bounds", "walker_no_panic",
     "field_ids", "field_ids_written", "enum_values",
     "annotations_append", "annotations_keys_first_occurrence",
-    "literal_unescape",
+    "literal_unescape", "quote_kind_independent", "skip_absorbs_ws", "list_separator_ignored", "skip_nodes_ignored",
 ]]
 
 PARTIAL = [
-    "walker_no_panic_partial: see docs/C03.md for the rule list it covers; the remaining walker functions are tied by the correspondence only",
-    "layout_independent_partial: token-level lemmas (Skip absorbs every Skip-string, ListSeparator optional, quote kind); composition over whole documents is covered by the oracle only",
-    "literal_unescape: stated for contents without a backslash before a quote character or a backslash and not ending in a backslash (the excluded shapes have negative witnesses)",
+    "layout_independent: proved per token rule only (skip_absorbs_ws: Skip absorbs every run of blanks; list_separator_ignored; "
+    "skip_nodes_ignored; quote_kind_independent); comments inside Skip, Indent* after tokens and the composition over whole "
+    "documents are covered by the oracle only; false for exponent doubles and non-decimal field ids (witnesses in Props/C03.lean)",
+    "literal_unescape: stated for contents without a backslash before the quote character or a backslash and not ending in a "
+    "backslash (Plain); the excluded shapes have negative witnesses",
+    "field_ids_written: decimal spellings within int32 only; hex/octal/out-of-range spellings are read wrongly by the code (witnesses)",
 ]
 
 
